@@ -39,15 +39,17 @@ RULE = ("genes: every word of length 1..3 over 18 class-representative profile n
 ASSUMPTIONS = [
     "Domain hits of one gene have distinct start coordinates ('in order' = by start along the protein).",
     "The role of a profile name is the documented one (pinned copy of the classification tables in "
-    "vf/models/c14_layout.py); names classified by the code but unknown to the copy are judged with the code's own "
-    "role predicates and counted as unspecified:unpinned-profile-name.",
+    "vf/models/c14_layout.py); modules containing a name the code classifies but the copy does not know are exempt "
+    "from the layout predicates (partition, order and merge bookkeeping still apply) and counted as "
+    "unspecified:unpinned-profile-name; the evidence lists such names and names whose class differs.",
     "A module boundary is expected only at an explicit starter (condensation, KS, SAT) or where the next domain "
     "does not fit the documented layout; the extra-carrier-protein case is judged only when docking/COM domains do "
     "not sit inside its two-domain look-ahead (counted as unspecified otherwise).",
     "A trans-AT module is a PKS module with a starter, without loader, and with a Trans-AT-KS typed starter or a "
     "trans-AT docking domain; starters other than a KS in that role are accepted and counted as unspecified.",
-    "A merged module never counts as 'first in its gene' (the code's reading; see report), so a loader that doubles "
-    "as starter does not make a merged module complete.",
+    "Whether a merged module inherits 'first in its gene' from its head module is not stated: both readings are "
+    "accepted and completeness is judged with the flag the module saves; merges the code refuses only because it "
+    "never sets the flag are counted as unspecified, not as missed merges.",
     "hmmscan front ends (find_domains, find_subtypes, find_ab_motifs, get_database_path) are replaced by generated "
     "hits: no HMMER binary exists in the sandbox; everything after them is the real code.",
 ]
@@ -121,6 +123,7 @@ class _State:
     orig_build = None
     orig_combine = None
     reloaded: set = set()
+    built_lists = None   # gene name -> the list returned by build_modules_for_cds (merged into in place)
 
 
 S = _State()
@@ -134,11 +137,15 @@ def _unpinned(labels) -> bool:
 # oracle: one module
 # --------------------------------------------------------------------------
 
-def oracle_module(ctx, module, first_expected, case, where, reload=True):
+def oracle_module(ctx, module, first_allowed, case, where, reload=True):
+    """ first_allowed: the value(s) the saved first-in-gene flag may have (a merged module may carry
+        the flag of its head module or none at all; completeness is judged with the saved flag) """
     ctx.count("op:module-layout")
+    if isinstance(first_allowed, bool):
+        first_allowed = (first_allowed,)
     comps = comps_of(module)
     labels = L.labels_of(comps)
-    facts = {"where": where, "module": tokens_of(comps), "first_in_cds": first_expected}
+    facts = {"where": where, "module": tokens_of(comps), "first_in_cds": list(first_allowed)}
     if not comps:
         ctx.violate("empty-module", facts, case)
         return
@@ -153,8 +160,10 @@ def oracle_module(ctx, module, first_expected, case, where, reload=True):
     for problem in L.layout_problems(comps):
         ctx.violate("layout:" + problem, facts, case)
     saved = module.to_json()
-    if saved.get("first_in_cds") is not first_expected:
-        ctx.violate("first-in-cds-flag", dict(facts, got=saved.get("first_in_cds")), case)
+    first_expected = saved.get("first_in_cds")
+    if not any(first_expected is allowed for allowed in first_allowed):
+        ctx.violate("first-in-cds-flag", dict(facts, got=first_expected), case)
+        first_expected = first_allowed[0]
     trans = L.is_trans_at(comps)
     if bool(module.is_trans_at()) != trans:
         ctx.violate("trans-at-predicate", dict(facts, got=module.is_trans_at(), expected=trans), case)
@@ -349,6 +358,10 @@ def oracle_combine(ctx, pre, current, previous, result, case):
                     and not hybrid(head, tail) and not L.layout_problems(merged)
                     and L.expect_complete(merged, False)):
                 ctx.violate("merge-missed", dict(facts, merged=tokens_of(merged)), case)
+            elif (not head_complete and (not tail_complete or tail[0][0] in L.FUSED_STARTERS)
+                  and not hybrid(head, tail) and not L.layout_problems(merged)
+                  and L.expect_complete(merged, head_first)):
+                ctx.count("unspecified:merge-refused-as-merged-module-is-never-first-in-gene")
         return
 
     ctx.count("op:combine-merged")
@@ -399,7 +412,7 @@ def oracle_combine(ctx, pre, current, previous, result, case):
             ctx.violate("merge-trailing-kr", dict(facts, took_next=took_next, expected=should), case)
     elif took_next:
         ctx.violate("merge-trailing-kr", dict(facts, took_next=True, expected=False), case)
-    oracle_module(ctx, result, False, case, "merge")
+    oracle_module(ctx, result, (False, bool(head_first)), case, "merge")
 
 
 # --------------------------------------------------------------------------
@@ -431,6 +444,8 @@ def install(ctx) -> None:
                                           "gene": [d.hit_id for d in given]}, S.case)
             raise
         S.ctx.count("monitor:build_modules_for_cds")
+        if S.built_lists is not None:
+            S.built_lists[cds_name] = result
         _safely(S.ctx, "build", oracle_build, S.ctx, given, cds_name, result, S.case)
         return result
 
@@ -472,7 +487,8 @@ def run_gene(ctx, case):
     except Exception:  # pylint: disable=broad-except
         ctx.case(("gene", tokens), nontrivial=False)
         return None
-    ctx.case(("gene", tokens), nontrivial=any(len(m.components) > 1 for m in modules), sample=case)
+    ctx.case(("gene", tokens), nontrivial=any(len(m.components) > 1 for m in modules),
+             sample=case if len(tokens) >= 3 and not ctx.samples else None)
     return modules
 
 
@@ -487,7 +503,8 @@ def run_pair(ctx, case):
     previous = mi.CDSModuleInfo(DummyCDS(0, 300, strand=head_strand, locus_tag="geneA"), head_mods)
     current = mi.CDSModuleInfo(DummyCDS(400, 700, strand=tail_strand, locus_tag="geneB"), tail_mods)
     attempt = bool(head_mods) and bool(tail_mods) and not head_mods[-1].is_complete()
-    ctx.case(("pair", case["head"], case["tail"], case["strands"]), nontrivial=attempt, sample=case)
+    ctx.case(("pair", case["head"], case["tail"], case["strands"]), nontrivial=attempt,
+             sample=case if attempt and len(ctx.samples) < 2 else None)
     all_before = [c.domain for info in (previous, current) for m in info.modules for c in m.components]
     try:
         mi.combine_modules(current, previous)
@@ -556,17 +573,34 @@ def run_cluster(ctx, case):
     record, placed = build_cluster_record(case)
     facts = {"strand": case["strand"], "genes": [g["tokens"] for g in case["genes"]],
              "flipped": [bool(g.get("flipped")) for g in case["genes"]], "split_regions": bool(case.get("split_regions"))}
+    S.built_lists = {}
     try:
         results = run_pipeline(record, placed)
     except Exception as err:  # pylint: disable=broad-except
+        S.built_lists = None
         ctx.case(("cluster", case), nontrivial=True)
         if S.combine_crashed is err or (S.combine_crashed is not None and type(err) is type(S.combine_crashed)):
             ctx.count("pipeline:aborted-by-recorded-combine-crash")
         else:
             ctx.violate("pipeline-crash", dict(facts, exception=type(err).__name__, message=str(err)[:200]), case)
         return
+    built, S.built_lists = S.built_lists, None
     by_name = {g["cds"].get_name(): g for g in placed}
     all_modules = [(cds, m) for cds, res in results.cds_results.items() for m in res.modules]
+    # what the record keeps = what was built and merged, minus the documented noise (single-domain modules)
+    for name, gene in by_name.items():
+        res = results.cds_results.get(gene["cds"])
+        if not gene["domains"]:
+            if res is not None:
+                ctx.violate("pipeline-result-for-gene-without-domains", facts, case)
+            continue
+        kept = [m for m in built.get(name, []) if len(m.components) > 1]
+        if res is None or [id(m) for m in res.modules] != [id(m) for m in kept]:
+            ctx.violate("pipeline-modules-lost-or-added",
+                        dict(facts, gene=gene["tokens"], kept=[tokens_of(comps_of(m)) for m in kept],
+                             reported=[tokens_of(comps_of(m)) for m in res.modules] if res else None), case)
+        elif res.domain_hmms != gene["domains"]:
+            ctx.violate("pipeline-domains-lost-or-added", dict(facts, gene=gene["tokens"]), case)
     ctx.case(("cluster", case), nontrivial=bool(all_modules), sample=case)
 
     # every domain at most once, every module listed once, components of a gene in order
